@@ -1,4 +1,5 @@
 import itertools
+import keyword
 from collections.abc import Mapping, Sequence
 from functools import update_wrapper
 from inspect import Parameter, Signature
@@ -52,10 +53,12 @@ class BuiltinConverterProvider(ConverterProvider):
             ),
             lambda x: "Cannot create top-level coercer",
         )
-        closure_name = self._get_closure_name(request)
+        function_name = self._get_function_name(request)
+        closure_name = self._get_closure_name(function_name)
         dumper_code, dumper_namespace = self._produce_code(
             signature=request.signature,
             closure_name=closure_name,
+            function_name=function_name,
             stub_function=request.stub_function,
             coercer=coercer,
         )
@@ -84,6 +87,7 @@ class BuiltinConverterProvider(ConverterProvider):
         signature: Signature,
         stub_function: Optional[Callable],
         closure_name: str,
+        function_name: str,
         coercer: Coercer,
     ) -> tuple[str, Mapping[str, object]]:
         builder = CodeBuilder()
@@ -108,7 +112,7 @@ class BuiltinConverterProvider(ConverterProvider):
         if stub_function is not None:
             builder += f"_update_wrapper({closure_name}, _stub_function)"
         builder += f"{closure_name}.__signature__ = _closure_signature"
-        builder += f"{closure_name}.__name__ = {closure_name!r}"
+        builder += f"{closure_name}.__name__ = {function_name!r}"
         return builder.string(), namespace.all_constants
 
     def _get_ctx_passing(self, ctx_parameters: Sequence[Parameter]) -> str:
@@ -121,7 +125,16 @@ class BuiltinConverterProvider(ConverterProvider):
     def _get_compiler(self) -> ClosureCompiler:
         return BasicClosureCompiler()
 
-    def _get_closure_name(self, request: ConverterRequest) -> str:
+    _RESERVED_NAMES = ("_closure_signature", "_stub_function", "_update_wrapper")
+
+    def _get_closure_name(self, function_name: str) -> str:
+        # the requested name is data (it becomes __name__), the function is defined under an identifier derived from it
+        name = self._name_sanitizer.sanitize(function_name)
+        if name == "" or keyword.iskeyword(name) or name in self._RESERVED_NAMES:
+            return name + "_"
+        return name
+
+    def _get_function_name(self, request: ConverterRequest) -> str:
         if request.function_name is not None:
             return request.function_name
         stub_function_name = getattr(request.stub_function, "__name__", None)
